@@ -42,7 +42,7 @@ class NMEA2000Decoder():
             dir_name = os.path.dirname(dump_to_file)
             if dir_name is not None and dir_name != "":
                 os.makedirs(dir_name, exist_ok=True)
-            self.dump_TextIOWrapper = open(dump_to_file, 'a')
+            self.dump_TextIOWrapper = open(dump_to_file, 'a', encoding='utf-8')
         if not isinstance(exclude_pgns, list):
             raise ValueError("exclude_pgns must be a list")
         if not isinstance(include_pgns, list):
